@@ -145,7 +145,7 @@ theorem genBarycentricVectors_eq (pts : ℕ → V2) (tris : List Tri) :
     genBarycentricVectors pts tris =
       (tris.map fun t => pts t.1, tris.map fun t => V2.sub (pts t.2.1) (pts t.1),
        tris.map fun t => V2.sub (pts t.2.2) (pts t.1)) := by
-  simp only [genBarycentricVectors, cornersOf, List.map_map, Function.comp_def]
+  simp only [genBarycentricVectors, cornerI_cornersOf, cornerJ_cornersOf, cornerK_cornersOf, np_sub_tri_vecs]
 
 theorem genPwaTrilist_eq (a : PwaObj) : genPwaTrilist a = a.source.trilist := rfl
 
@@ -154,7 +154,7 @@ theorem genPwaRebuildTargetVectors_eq (a : PwaObj) :
       { a with ti := a.source.trilist.map fun t => a.target t.1
                tij := a.source.trilist.map fun t => V2.sub (a.target t.2.1) (a.target t.1)
                tik := a.source.trilist.map fun t => V2.sub (a.target t.2.2) (a.target t.1) } := by
-  simp only [genPwaRebuildTargetVectors, genPwaTrilist_eq, cornersOf, List.map_map, Function.comp_def]
+  simp only [genPwaRebuildTargetVectors, genPwaTrilist_eq, cornerI_cornersOf, cornerJ_cornersOf, cornerK_cornersOf, np_sub_tri_vecs]
 
 theorem genPwaSync_eq (a : PwaObj) : genPwaSync a = genPwaRebuildTargetVectors a := rfl
 
